@@ -221,6 +221,17 @@ pub fn check_case_via(ctx: &Ctx, frames: &[Vec<u8>], cuts: &[usize], via: u8) ->
     if nesc > 0 && inside {
         ctx.nontrivial(h64(&(frames, cuts)));
     }
+    if frames.len() <= 64 {
+        if frames.windows(2).any(|w| w[0] == w[1]) {
+            ctx.class("sequence with two identical frames in a row");
+        }
+        if frames.iter().any(|f| f[2..].iter().all(|b| *b == 0)) {
+            ctx.class("sequence with a frame whose bytes are all zero");
+        }
+        if frames.iter().any(|f| f[2..].iter().all(|b| *b == 0xff) || f[2..].iter().all(|b| *b == 0x1a)) {
+            ctx.class("sequence with a frame whose bytes are all 0xff / all 0x1a");
+        }
+    }
     let describe = |v: &[Vec<u8>]| v.iter().map(hex::encode).collect::<Vec<_>>().join(" ");
     // prefix, byte for byte, in order
     if got.len() > frames.len() || got.iter().zip(frames.iter()).any(|(a, b)| a != b) {
@@ -275,7 +286,22 @@ fn body(density: u8) -> impl Strategy<Value = Vec<u8>> {
 }
 
 fn frames_strategy(max: usize) -> impl Strategy<Value = Vec<Vec<u8>>> {
-    proptest::collection::vec((prop_oneof![1 => Just(b'1'), 2 => Just(b'2'), 4 => Just(b'3')], (0u8..5).prop_flat_map(body)), 1..=max).prop_map(|v| v.into_iter().map(|(k, b)| raw_frame(k, &b)).collect())
+    // variant: 0 = the very same frame as its predecessor (a repeated transmission, a receiver that reports twice),
+    // 1 / 2 / 3 = every payload byte 0x00 / 0xff / 0x1a (keep-alive-like and degenerate frames are frames too), else as drawn
+    proptest::collection::vec((prop_oneof![1 => Just(b'1'), 2 => Just(b'2'), 4 => Just(b'3')], (0u8..5).prop_flat_map(body), 0u8..16), 1..=max).prop_map(|v| {
+        let mut out: Vec<Vec<u8>> = vec![];
+        for (k, b, variant) in v {
+            let f = match variant {
+                0 if !out.is_empty() => out.last().unwrap().clone(),
+                1 => raw_frame(k, &[0u8; 21]),
+                2 => raw_frame(k, &[0xffu8; 21]),
+                3 => raw_frame(k, &[0x1au8; 21]),
+                _ => raw_frame(k, &b),
+            };
+            out.push(f);
+        }
+        out
+    })
 }
 
 /// a long stream, a pure function of (profile, n, salt)
